@@ -288,25 +288,29 @@ func (s *v4Server) rmLeaseByIndex(i int) {
 //
 // TODO(s.chzhen):  Refactor the code.
 func (s *v4Server) rmDynamicLease(lease *dhcpsvc.Lease) (err error) {
-	for i, l := range s.leases {
-		isStatic := l.IsStatic
+	// Don't use a range loop, since the leases are removed from the slice
+	// while iterating over it.
+	for i := 0; i < len(s.leases); {
+		l := s.leases[i]
 
 		if bytes.Equal(l.HWAddr, lease.HWAddr) || l.IP == lease.IP {
-			if isStatic {
+			if l.IsStatic {
 				return errors.Error("static lease already exists")
 			}
 
+			// Check the lease that takes the place of the removed one on the
+			// next iteration.
 			s.rmLeaseByIndex(i)
-			if i == len(s.leases) {
-				break
-			}
 
-			l = s.leases[i]
+			continue
 		}
 
-		if !isStatic && l.Hostname == lease.Hostname {
+		if !l.IsStatic && l.Hostname != "" && l.Hostname == lease.Hostname {
+			delete(s.hostsIndex, l.Hostname)
 			l.Hostname = ""
 		}
+
+		i++
 	}
 
 	return nil
